@@ -68,6 +68,9 @@ def make_sim_class(trace, spec, yields):
                 yield asyncio.sleep(0)
             trace.append((time, json.dumps(inputs, sort_keys=True)))
             self.st, nxt = behave(spec, self.st, time, inputs)
+            if spec.get("agent_of") and time % 2 == 0:
+                # an agent with an async_requests connection from its plant: sends a set-point back during its step
+                yield self.mosaik.set_data({f"{self.sid}.e0": {f"{spec['agent_of']}-0.e0": {"in2": self.st["val"]}}})
             return nxt
 
         def get_data(self, outputs):
@@ -117,6 +120,7 @@ def reference_traces(name):
     demand = {r: ({0} if sims[r]["type"] != "event-based" else set()) for r in roles}
     produced = {r: [] for r in roles}            # [(output time, {attr: value})]
     pending_events = []                          # [due time, dest, dest attr, src full id, value]
+    set_data = {}                                # addressee -> {(attr, sender full id): value} not yet delivered
     traces = {r: [] for r in roles}
     for t in range(UNTIL):
         for r in order:
@@ -134,12 +138,16 @@ def reference_traces(name):
                     else:
                         val = (kw.get("initial_data") or {}).get(sa)
                     inputs.setdefault("e0", {}).setdefault(da, {})[f"{s}-0.e0"] = val
+            for (attr, src_full), val in sorted(set_data.pop(r, {}).items()):      # C16: exactly once, in the next step
+                inputs.setdefault("e0", {}).setdefault(attr, {})[src_full] = val
             for ev in sorted(pending_events, key=lambda e: e[0]):
                 if ev[1] == r and ev[0] <= t:
                     inputs.setdefault("e0", {}).setdefault(ev[2], {})[ev[3]] = ev[4]
             pending_events[:] = [ev for ev in pending_events if not (ev[1] == r and ev[0] <= t)]
             traces[r].append((t, json.dumps(inputs, sort_keys=True)))
             state[r], nxt = behave(sims[r], state[r], t, inputs)
+            if sims[r].get("agent_of") and t % 2 == 0:
+                set_data.setdefault(sims[r]["agent_of"], {})[("in2", f"{r}-0.e0")] = state[r]["val"]
             if nxt is not None and nxt < UNTIL:
                 demand[r].add(nxt)
             wanted = sorted({sa for s, d, sa, da, kw in conns if s == r})
@@ -183,6 +191,10 @@ SCENARIOS = {
                             [("A", "B", "ev", "in1", {})], []),
     "shifted_event": ({"A": {"type": "hybrid", "step": 1}, "E": {"type": "event-based"}, "B": {"type": "time-based", "step": 1}},
                       [("A", "E", "ev", "in1", {"time_shifted": True}), ("E", "B", "x", "in1", {})], []),
+    "async_agent": ({"A": {"type": "time-based", "step": 1}, "B": {"type": "time-based", "step": 1, "agent_of": "A"}},
+                    [("A", "B", "x", "in1", {"async_requests": True})], []),
+    "async_agent_slow_plant": ({"A": {"type": "time-based", "step": 2}, "B": {"type": "time-based", "step": 1, "agent_of": "A"}},
+                               [("A", "B", "x", "in1", {"async_requests": True})], []),
     "slow_producer_shifted": ({"A": {"type": "time-based", "step": 5}, "B": {"type": "time-based", "step": 1}},
                               [("A", "B", "x", "in1", {"time_shifted": True, "initial_data": {"x": 0}})], []),
 }
@@ -322,7 +334,7 @@ def bounded_config_independence(tier, seed):
             break
     return {"bound": (f"{len(SCENARIOS)} scenarios (2-3 deterministic in-process simulators, until={UNTIL}): chains with step sizes 1-5, diamond, "
                       "time-shifted loop, event / hybrid triggers, weak loop in a group, two connections with different delays between one "
-                      "pair, explicit output times; x {lazy_stepping} x {cache} x {debug} x start-order "
+                      "pair, explicit output times, an agent sending set_data over an async_requests connection; x {lazy_stepping} x {cache} x {debug} x start-order "
                       "permutations x per-simulator yields to the event loop inside step() "
                       + ("(full cross product, yields in 0,1,3)" if tier == "thorough" else "(one axis at a time plus the opposite corner, yields in 0,2)")
                       + f"; transport: in-process only; the baseline run of each of the {with_reference} ungrouped scenarios is also compared with a "
